@@ -471,3 +471,493 @@ Proof.
   subst c. destruct (exists_last Hne) as (l' & a & ->). rewrite last_last.
   apply in_or_app. right. left. reflexivity.
 Qed.
+
+(* ================================================================== *)
+(* 2. frames                                                           *)
+(* ================================================================== *)
+
+Ltac cif H :=
+  match type of H with
+  | (if ?c then _ else _) = _ => let E := fresh "E" in destruct c eqn:E
+  end.
+
+(* the MsgReadIndexResp messages of an outbound queue *)
+Definition is_rir (x : msg) : bool := m_type x =? MsgReadIndexResp.
+Definition rir (l : list msg) : list msg := filter is_rir l.
+
+Lemma rir_app a b : rir (a ++ b) = rir a ++ rir b.
+Proof. apply filter_app. Qed.
+
+(* light frame: what the helpers that only queue messages / update progress leave alone *)
+Definition lf (r r' : raft) : Prop :=
+  r_log r' = r_log r /\ r_read_only r' = r_read_only r /\ r_read_states r' = r_read_states r /\
+  r_term r' = r_term r /\ r_id r' = r_id r /\ r_state r' = r_state r /\
+  t_conf (r_prs r') = t_conf (r_prs r) /\ r_leader_id r' = r_leader_id r /\
+  rir (r_msgs r') = rir (r_msgs r).
+
+Lemma lf_refl r : lf r r.
+Proof. repeat split. Qed.
+
+Lemma lf_trans a b c : lf a b -> lf b c -> lf a c.
+Proof. unfold lf. intuition congruence. Qed.
+
+Ltac lf_solve := unfold lf; cbn; repeat split; try reflexivity; try congruence.
+
+Lemma send_exact r m r' : send r m = Ok r' -> exists m', r' = r <| r_msgs := r_msgs r ++ [m'] |> /\
+  m_type m' = m_type m /\ m_to m' = m_to m /\ m_context m' = m_context m /\
+  m_index m' = m_index m /\ m_entries m' = m_entries m /\ m_reject m' = m_reject m.
+Proof.
+  unfold send. intros H. inv_bind H. inversion H; subst. eexists. split; [reflexivity|].
+  assert (Hx1 : m_type x = m_type m /\ m_to x = m_to m /\ m_context x = m_context m /\
+                m_index x = m_index m /\ m_entries x = m_entries m /\ m_reject x = m_reject m).
+  { clear H. destruct (is_vote_type _).
+    - destruct (m_term _ =? 0); inversion Hx; subst.
+      destruct (m_from m =? INVALID_ID); cbn; auto 10.
+    - destruct (negb _); [discriminate|].
+      destruct (_ && _); inversion Hx; subst; destruct (m_from m =? INVALID_ID); cbn; auto 10. }
+  destruct Hx1 as (A & B & C0 & D & E & F).
+  destruct ((m_type x =? MsgRequestVote) || (m_type x =? MsgRequestPreVote));
+    [destruct (0 <? r_priority r)%Z|]; cbn; auto 10.
+Qed.
+
+Lemma send_lf r m r' : send r m = Ok r' -> is_rir m = false -> lf r r'.
+Proof.
+  intros H Ht. apply send_exact in H. destruct H as (m' & -> & Hty & _).
+  unfold lf. cbn. repeat split. rewrite rir_app. cbn [rir filter]. unfold is_rir in *.
+  rewrite Hty, Ht. rewrite app_nil_r. reflexivity.
+Qed.
+
+Lemma put_pr_lf r id p : lf r (put_pr r id p).
+Proof. lf_solve. Qed.
+
+Lemma rir_cons_not m l : is_rir m = false -> rir (m :: l) = rir l.
+Proof. intros H. unfold rir. cbn [filter]. rewrite H. reflexivity. Qed.
+
+Lemma try_batching_rir r to : forall msgs pr ents msgs' pr' b,
+  try_batching r to msgs pr ents = Ok (msgs', pr', b) -> rir msgs' = rir msgs.
+Proof.
+  induction msgs as [|m rest IH]; intros pr ents msgs' pr' b H; cbn [try_batching] in H.
+  { inversion H; subst. reflexivity. }
+  destruct ((m_type m =? MsgAppend) && (m_to m =? to)) eqn:E.
+  - apply andb_prop in E. destruct E as [E _]. apply N.eqb_eq in E.
+    assert (Hm : is_rir m = false) by (unfold is_rir; rewrite E; reflexivity).
+    destruct ents as [|e0 ents].
+    + inversion H; subst. rewrite !rir_cons_not; [reflexivity|exact Hm|exact Hm].
+    + destruct (negb (is_continuous_ents m (e0 :: ents))); [inversion H; subst; reflexivity|].
+      inv_bind H. inversion H; subst. rewrite !rir_cons_not; [reflexivity|exact Hm|exact Hm].
+  - inv_bind H. destruct x as [[rest' pr1] b1]. inversion H; subst.
+    apply IH in Hx. unfold rir in *. cbn [filter]. rewrite Hx. reflexivity.
+Qed.
+
+Lemma maybe_send_append_lf r to pr ae r' pr' b :
+  maybe_send_append r to pr ae = Ok (r', pr', b) -> lf r r'.
+Proof.
+  unfold maybe_send_append. intros H.
+  destruct (is_paused pr). { inversion H; subst. apply lf_refl. }
+  assert (Hsnap :
+    (x <- prepare_send_snapshot r (msg_default <| m_to := to |>) pr to ;;
+     match x with
+     | None => Ok (r, pr, false)
+     | Some (m', pr'0) => r'0 <- send r m' ;; Ok (r'0, pr'0, true)
+     end) = Ok (r', pr', b) -> lf r r').
+  { intros Hs. inv_bind Hs. destruct x as [[m' p']|].
+    - inv_bind Hs. inversion Hs; subst. eapply send_lf; [eassumption|].
+      unfold prepare_send_snapshot in Hx. destruct (negb (recent_active pr)); [discriminate|].
+      inv_bind Hx. destruct x as [s|e]; [|destruct e; discriminate].
+      destruct (s_index s =? 0); [discriminate|]. inversion Hx; subst. reflexivity.
+    - inversion Hs; subst. apply lf_refl. }
+  destruct (negb (pending_request_snapshot pr =? INVALID_INDEX)). { apply Hsnap; exact H. }
+  inv_bind H.
+  cif H. { inversion H; subst. apply lf_refl. }
+  destruct (next_idx pr =? 0); [discriminate|].
+  inv_bind H.
+  destruct x0 as [t|e1]; destruct x as [ents|e2].
+  - inv_bind H. destruct x as [[msgs' pr1] batched].
+    destruct batched.
+    { inversion H; subst. unfold lf. cbn. repeat split.
+      destruct (r_batch_append r); [eapply try_batching_rir; eassumption|discriminate]. }
+    inv_bind H. destruct x as [m' pr2]. inv_bind H. inversion H; subst.
+    eapply send_lf; [eassumption|].
+    unfold prepare_send_entries in Hx2. destruct (next_idx pr =? 0); [discriminate|].
+    destruct ents; [inversion Hx2; subst; reflexivity|].
+    inv_bind Hx2. inversion Hx2; subst. reflexivity.
+  - destruct e2; try (apply Hsnap; exact H). inversion H; subst. apply lf_refl.
+  - apply Hsnap; exact H.
+  - destruct e2; try (apply Hsnap; exact H). inversion H; subst. apply lf_refl.
+Qed.
+
+Lemma send_append_to_lf r to r' : send_append_to r to = Ok r' -> lf r r'.
+Proof.
+  unfold send_append_to. intros H. destruct (get_pr r to); [|discriminate].
+  inv_bind H. destruct x as [[r1 pr1] b]. inversion H; subst.
+  eapply lf_trans; [eapply maybe_send_append_lf; eassumption|apply put_pr_lf].
+Qed.
+
+Lemma send_append_aggressively_loop_lf fuel : forall r to pr r' pr',
+  send_append_aggressively_loop fuel r to pr = Ok (r', pr') -> lf r r'.
+Proof.
+  induction fuel as [|f IH]; intros r to pr r' pr' H; [discriminate|].
+  cbn [send_append_aggressively_loop] in H. inv_bind H. destruct x as [[r1 pr1] b].
+  apply maybe_send_append_lf in Hx.
+  destruct b.
+  - eapply lf_trans; [exact Hx|eapply IH; eassumption].
+  - inversion H; subst. exact Hx.
+Qed.
+
+Lemma send_append_aggressively_lf r to r' : send_append_aggressively r to = Ok r' -> lf r r'.
+Proof.
+  unfold send_append_aggressively. intros H. destruct (get_pr r to); [|discriminate].
+  inv_bind H. destruct x as [r1 pr1]. inversion H; subst.
+  eapply lf_trans; [eapply send_append_aggressively_loop_lf; eassumption|apply put_pr_lf].
+Qed.
+
+Lemma for_each_peer_lf (f : raft -> N -> Res raft) :
+  (forall r id r', f r id = Ok r' -> lf r r') ->
+  forall ids self r r', for_each_peer ids self f r = Ok r' -> lf r r'.
+Proof.
+  intros Hf. induction ids as [|id rest IH]; intros self r r' H.
+  { inversion H; subst. apply lf_refl. }
+  cbn [for_each_peer] in H. destruct (id =? self). { eapply IH; eassumption. }
+  inv_bind H. eapply lf_trans; [eapply Hf; eassumption|eapply IH; eassumption].
+Qed.
+
+Lemma bcast_append_lf r r' : bcast_append r = Ok r' -> lf r r'.
+Proof. unfold bcast_append. apply for_each_peer_lf. apply send_append_to_lf. Qed.
+
+Lemma send_timeout_now_lf r to r' : send_timeout_now r to = Ok r' -> lf r r'.
+Proof. unfold send_timeout_now. intros H. eapply send_lf; [exact H|reflexivity]. Qed.
+
+Lemma send_request_snapshot_lf r r' : send_request_snapshot r = Ok r' -> lf r r'.
+Proof.
+  unfold send_request_snapshot. intros H. inv_bind H. destruct x; [|discriminate].
+  eapply send_lf; [exact H|reflexivity].
+Qed.
+
+(* ================================================================== *)
+(* 3. heartbeats carrying a read context                               *)
+(* ================================================================== *)
+
+(* the heartbeat the leader [r] queues for peer [to] with progress [pr] *)
+Definition hb_msg (r : raft) (ctx : option (list N)) (to : N) (pr : progress) : msg :=
+  (match ctx with
+   | Some c => msg_default <| m_to := to |> <| m_type := MsgHeartbeat |>
+                 <| m_commit := N.min (matched pr) (committed (r_log r)) |> <| m_context := c |>
+   | None => msg_default <| m_to := to |> <| m_type := MsgHeartbeat |>
+                 <| m_commit := N.min (matched pr) (committed (r_log r)) |>
+   end) <| m_from := r_id r |> <| m_term := r_term r |>.
+
+Lemma send_heartbeat_exact r to pr ctx :
+  send_heartbeat r to pr ctx = Ok (r <| r_msgs := r_msgs r ++ [hb_msg r ctx to pr] |>).
+Proof.
+  unfold send_heartbeat, hb_msg. destruct ctx; apply send_plain; reflexivity.
+Qed.
+
+(* one heartbeat per tracked peer other than the node itself, in increasing id order *)
+Definition hb_list (r : raft) (ctx : option (list N)) (ids : list N) : list msg :=
+  flat_map (fun id => if id =? r_id r then []
+                      else match get_pr r id with
+                           | Some pr => [hb_msg r ctx id pr]
+                           | None => []
+                           end) ids.
+
+Definition hb_fun (ctx : option (list N)) : raft -> N -> Res raft :=
+  fun r id => match get_pr r id with
+              | Some pr => send_heartbeat r id pr ctx
+              | None => Panic site_pr_unwrap
+              end.
+
+Lemma set_msgs_same (r : raft) : r <| r_msgs := r_msgs r |> = r.
+Proof. destruct r; reflexivity. Qed.
+
+Lemma hb_loop_exact ctx : forall ids r0 ms r',
+  for_each_peer ids (r_id r0) (hb_fun ctx) (r0 <| r_msgs := ms |>) = Ok r' ->
+  r' = r0 <| r_msgs := ms ++ hb_list r0 ctx ids |> /\
+  (forall id, In id ids -> id <> r_id r0 -> get_pr r0 id <> None).
+Proof.
+  induction ids as [|id rest IH]; intros r0 ms r' H.
+  { cbn in H. inversion H; subst. cbn [hb_list flat_map]. rewrite app_nil_r. split; [reflexivity|].
+    intros id []. }
+  cbn [for_each_peer] in H. change (r_id (r0 <| r_msgs := ms |>)) with (r_id r0) in H.
+  cbn [hb_list flat_map]. fold (hb_list r0 ctx rest).
+  destruct (id =? r_id r0) eqn:E.
+  - apply IH in H. cbn [app]. destruct H as [H1 H2]. split; [exact H1|].
+    intros i [A|A] B; [subst; apply N.eqb_eq in E; contradiction|apply H2; assumption].
+  - inv_bind H. unfold hb_fun in Hx.
+    change (get_pr (r0 <| r_msgs := ms |>) id) with (get_pr r0 id) in Hx.
+    destruct (get_pr r0 id) as [pr|] eqn:Eg; [|discriminate].
+    rewrite send_heartbeat_exact in Hx. inversion Hx; subst. clear Hx.
+    change (hb_msg (r0 <| r_msgs := ms |>) ctx id pr) with (hb_msg r0 ctx id pr) in H.
+    match type of H with for_each_peer _ _ _ ?rr = _ =>
+      change rr with (r0 <| r_msgs := ms ++ [hb_msg r0 ctx id pr] |>) in H end.
+    apply IH in H. destruct H as [H1 H2]. rewrite <- app_assoc in H1. split; [exact H1|].
+    intros i [A|A] B; [subst; congruence|apply H2; assumption].
+Qed.
+
+(* bcast_heartbeat_with_ctx only appends the heartbeats *)
+Theorem bcast_heartbeat_with_ctx_exact r ctx r' :
+  bcast_heartbeat_with_ctx r ctx = Ok r' ->
+  r' = r <| r_msgs := r_msgs r ++ hb_list r ctx (pids (t_progress (r_prs r))) |>.
+Proof.
+  unfold bcast_heartbeat_with_ctx. fold (hb_fun ctx). intros H.
+  rewrite <- (set_msgs_same r) in H at 3.
+  change (r_id r) with (r_id r) in H. apply hb_loop_exact in H. apply H.
+Qed.
+
+Lemma pget_pids m id : In id (pids m) -> exists p, pget m id = Some p.
+Proof.
+  induction m as [|[k q] t IH]; cbn [pids map fst In pget]; [intros []|].
+  intros [A|A].
+  - subst. rewrite N.eqb_refl. eauto.
+  - destruct (k =? id); [eauto|]. apply IH. exact A.
+Qed.
+
+(* every queued heartbeat has the shape the Safe read-index mechanism relies on *)
+Lemma hb_list_shape r ctx ids x :
+  In x (hb_list r ctx ids) ->
+  m_type x = MsgHeartbeat /\ m_from x = r_id r /\ m_term x = r_term r /\
+  m_context x = match ctx with Some c => c | None => [] end /\
+  In (m_to x) ids /\ m_to x <> r_id r /\
+  exists pr, get_pr r (m_to x) = Some pr /\ m_commit x = N.min (matched pr) (committed (r_log r)).
+Proof.
+  unfold hb_list. rewrite in_flat_map. intros (id & Hid & Hx).
+  destruct (id =? r_id r) eqn:E; [destruct Hx|]. apply N.eqb_neq in E.
+  destruct (get_pr r id) as [pr|] eqn:Eg; [|destruct Hx]. destruct Hx as [<-|[]].
+  unfold hb_msg. destruct ctx; cbn; repeat split; auto; exists pr; auto.
+Qed.
+
+(* ... and there is exactly one per tracked peer other than the node itself *)
+Lemma hb_list_dests r ctx :
+  map m_to (hb_list r ctx (pids (t_progress (r_prs r))))
+    = filter (fun id => negb (id =? r_id r)) (pids (t_progress (r_prs r))).
+Proof.
+  assert (G : forall ids, (forall id, In id ids -> In id (pids (t_progress (r_prs r)))) ->
+              map m_to (hb_list r ctx ids) = filter (fun id => negb (id =? r_id r)) ids).
+  { induction ids as [|id rest IH]; intros Hall; [reflexivity|].
+    cbn [hb_list flat_map filter]. fold (hb_list r ctx rest). rewrite map_app.
+    rewrite IH by (intros i Hi; apply Hall; right; exact Hi).
+    destruct (id =? r_id r); cbn [negb map app]; [reflexivity|].
+    destruct (pget_pids _ _ (Hall id (or_introl eq_refl))) as [p Hp].
+    unfold get_pr. rewrite Hp. unfold hb_msg. destruct ctx; reflexivity. }
+  apply G. auto.
+Qed.
+
+(* ================================================================== *)
+(* 4. the term prologue of step, specialised                           *)
+(* ================================================================== *)
+
+Definition step_role (r : raft) (m : msg) : Res (raft * N) :=
+  match r_state r with
+  | PreCandidate | Candidate => step_candidate r m
+  | Follower => step_follower r m
+  | Leader => step_leader r m
+  end.
+
+(* a local (term 0) or same-term message that is neither MsgHup nor a vote request goes
+   straight to the role handler *)
+Lemma step_same_term r m :
+  (m_term m = 0 \/ m_term m = r_term r) -> (m_type m =? MsgHup) = false ->
+  (m_type m =? MsgRequestVote) || (m_type m =? MsgRequestPreVote) = false ->
+  step r m = step_role r m.
+Proof.
+  intros Ht Hh Hv. unfold step, step_role.
+  destruct (m_term m =? 0) eqn:E0.
+  - cbn [bind]. rewrite Hh, Hv. reflexivity.
+  - destruct Ht as [Ht|Ht]; [rewrite Ht in E0; discriminate|].
+    replace (r_term r <? m_term m) with false by (symmetry; apply N.ltb_ge; lia).
+    replace (m_term m <? r_term r) with false by (symmetry; apply N.ltb_ge; lia).
+    cbn [bind]. rewrite Hh, Hv. reflexivity.
+Qed.
+
+(* a message from a lower term: at most an empty MsgAppendResponse (heartbeat / append under
+   check_quorum or pre_vote) or a rejecting pre-vote response; the state is otherwise unchanged *)
+Lemma step_lower_term r m :
+  m_term m <> 0 -> m_term m < r_term r ->
+  step r m =
+    if (r_check_quorum r || r_pre_vote r) && ((m_type m =? MsgHeartbeat) || (m_type m =? MsgAppend)) then
+      r' <- send r (new_message (m_from m) MsgAppendResponse None) ;; Ok (r', E_OK)
+    else if m_type m =? MsgRequestPreVote then
+      r' <- send r ((new_message (m_from m) MsgRequestPreVoteResponse None)
+                      <| m_term := r_term r |> <| m_reject := true |>) ;;
+      Ok (r', E_OK)
+    else Ok (r, E_OK).
+Proof.
+  intros H0 Hlt. unfold step.
+  assert (E0 : (m_term m =? 0) = false) by (apply N.eqb_neq; exact H0).
+  assert (E1 : (r_term r <? m_term m) = false) by (apply N.ltb_ge; lia).
+  assert (E2 : (m_term m <? r_term r) = true) by (apply N.ltb_lt; exact Hlt).
+  rewrite E0, E1, E2.
+  destruct ((r_check_quorum r || r_pre_vote r) && ((m_type m =? MsgHeartbeat) || (m_type m =? MsgAppend))).
+  - destruct (send r (new_message (m_from m) MsgAppendResponse None)); reflexivity.
+  - destruct (m_type m =? MsgRequestPreVote); [|reflexivity].
+    destruct (send r _); reflexivity.
+Qed.
+
+(* ================================================================== *)
+(* 5. the leader's MsgReadIndex handler                                *)
+(* ================================================================== *)
+
+Definition singleton_conf (r : raft) : bool :=
+  match incoming (conf_of r), outgoing (conf_of r) with
+  | [_], [] => true
+  | _, _ => false
+  end.
+
+Definition readindex_answer_now (r : raft) (m : msg) : Res (raft * N) :=
+  x <- handle_ready_read_index r m (committed (r_log r)) ;;
+  let '(r1, om) := x in
+  r2 <- match om with Some mm => send r1 mm | None => Ok r1 end ;; Ok (r2, E_OK).
+
+Definition step_leader_readindex (r : raft) (m : msg) : Res (raft * N) :=
+  c <- commit_to_current_term r ;;
+  if negb c then Ok (r, E_OK) else
+  if singleton_conf r then readindex_answer_now r m else
+  if ro_option (r_read_only r) =? 0 then
+    ctx <- first_entry_data m ;;
+    ro' <- ro_add_request (r_read_only r) (committed (r_log r)) m (r_id r) ;;
+    r' <- bcast_heartbeat_with_ctx (r <| r_read_only := ro' |>) (Some ctx) ;; Ok (r', E_OK)
+  else readindex_answer_now r m.
+
+Lemma step_leader_readindex_eq r m :
+  m_type m = MsgReadIndex -> step_leader r m = step_leader_readindex r m.
+Proof. intros Ht. unfold step_leader. rewrite Ht. reflexivity. Qed.
+
+Lemma step_readindex_leader r m :
+  r_state r = Leader -> m_type m = MsgReadIndex -> (m_term m = 0 \/ m_term m = r_term r) ->
+  step r m = step_leader_readindex r m.
+Proof.
+  intros Hs Ht Hterm. rewrite step_same_term; [|exact Hterm|rewrite Ht; reflexivity|rewrite Ht; reflexivity].
+  unfold step_role. rewrite Hs. apply step_leader_readindex_eq. exact Ht.
+Qed.
+
+(* C08.2: a leader that has not yet committed an entry of its own term ignores MsgReadIndex:
+   no read state, no message, nothing recorded *)
+Theorem readindex_requires_own_term_commit_leader r m :
+  m_type m = MsgReadIndex -> commit_to_current_term r = Ok false -> step_leader r m = Ok (r, E_OK).
+Proof.
+  intros Ht Hc. rewrite step_leader_readindex_eq by exact Ht.
+  unfold step_leader_readindex. rewrite Hc. reflexivity.
+Qed.
+
+Theorem readindex_requires_own_term_commit r m :
+  r_state r = Leader -> m_type m = MsgReadIndex -> m_term m <= r_term r ->
+  commit_to_current_term r = Ok false -> step r m = Ok (r, E_OK).
+Proof.
+  intros Hs Ht Hterm Hc.
+  destruct (N.eq_dec (m_term m) 0) as [E0|E0]; [|destruct (N.eq_dec (m_term m) (r_term r)) as [E1|E1]].
+  - rewrite step_readindex_leader; auto. unfold step_leader_readindex. rewrite Hc. reflexivity.
+  - rewrite step_readindex_leader; auto. unfold step_leader_readindex. rewrite Hc. reflexivity.
+  - rewrite step_lower_term; [|exact E0|lia]. rewrite Ht.
+    change (MsgReadIndex =? MsgHeartbeat) with false. change (MsgReadIndex =? MsgAppend) with false.
+    change (MsgReadIndex =? MsgRequestPreVote) with false.
+    rewrite andb_false_r. reflexivity.
+Qed.
+
+(* the read-only bookkeeping after a Safe MsgReadIndex for context [ctx] *)
+Definition ro_after_request (r : raft) (m : msg) (ctx : list N) : read_only :=
+  match ro_find (ro_pending (r_read_only r)) ctx with
+  | Some _ => r_read_only r
+  | None => mkRO (ro_option (r_read_only r))
+                 (ro_pending (r_read_only r) ++ [(ctx, mkRIS m (committed (r_log r)) [r_id r])])
+                 (ro_queue (r_read_only r) ++ [ctx])
+  end.
+
+(* C08.3: Safe option, not a singleton, committed in the own term: the request is recorded
+   with the leader's current commit index and acks = {self} (unless the context is already
+   pending: then nothing is recorded), one heartbeat carrying the context is queued for every
+   other tracked peer, and NOTHING else changes *)
+Theorem readindex_safe_records_commit_leader r m r' c :
+  m_type m = MsgReadIndex -> commit_to_current_term r = Ok true ->
+  singleton_conf r = false -> ro_option (r_read_only r) = 0 ->
+  step_leader r m = Ok (r', c) ->
+  c = E_OK /\ exists e rest, m_entries m = e :: rest /\
+    r' = r <| r_read_only := ro_after_request r m (e_data e) |>
+           <| r_msgs := r_msgs r ++ hb_list r (Some (e_data e)) (pids (t_progress (r_prs r))) |>.
+Proof.
+  intros Ht Hc Hsing Hopt H. rewrite step_leader_readindex_eq in H by exact Ht.
+  unfold step_leader_readindex in H. rewrite Hc, Hsing, Hopt in H. cbn [bind negb] in H.
+  change (0 =? 0) with true in H. cbn match in H.
+  inv_bind H. inv_bind H. inv_bind H. inversion H; subst. split; [reflexivity|].
+  apply ro_add_request_spec in Hx0. destruct Hx0 as (e & rest & He & Hro).
+  unfold first_entry_data in Hx. rewrite He in Hx. inversion Hx; subst. clear Hx.
+  exists e, rest. split; [exact He|].
+  apply bcast_heartbeat_with_ctx_exact in Hx1. rewrite Hx1.
+  unfold ro_after_request.
+  destruct Hro as [(st & Hf & ->)|(Hf & ->)]; rewrite Hf; reflexivity.
+Qed.
+
+Theorem readindex_safe_records_commit r m r' c :
+  r_state r = Leader -> m_type m = MsgReadIndex -> (m_term m = 0 \/ m_term m = r_term r) ->
+  commit_to_current_term r = Ok true ->
+  singleton_conf r = false -> ro_option (r_read_only r) = 0 ->
+  step r m = Ok (r', c) ->
+  c = E_OK /\ exists e rest, m_entries m = e :: rest /\
+    r' = r <| r_read_only := ro_after_request r m (e_data e) |>
+           <| r_msgs := r_msgs r ++ hb_list r (Some (e_data e)) (pids (t_progress (r_prs r))) |>.
+Proof.
+  intros Hs Ht Hterm Hc Hsing Hopt H.
+  rewrite step_readindex_leader in H by assumption.
+  rewrite <- step_leader_readindex_eq in H by exact Ht.
+  eapply readindex_safe_records_commit_leader; eassumption.
+Qed.
+
+(* what the recorded entry is *)
+Lemma ro_after_request_find r m ctx :
+  match ro_find (ro_pending (r_read_only r)) ctx with
+  | Some st => ro_find (ro_pending (ro_after_request r m ctx)) ctx = Some st
+  | None => ro_find (ro_pending (ro_after_request r m ctx)) ctx
+              = Some (mkRIS m (committed (r_log r)) [r_id r]) /\
+            ro_queue (ro_after_request r m ctx) = ro_queue (r_read_only r) ++ [ctx]
+  end.
+Proof.
+  unfold ro_after_request. destruct (ro_find (ro_pending (r_read_only r)) ctx) eqn:E; [exact E|].
+  cbn [ro_pending ro_queue]. rewrite ro_find_app, E. cbn [ro_find]. rewrite list_eqb_refl. auto.
+Qed.
+
+Lemma ro_after_request_RoInv r m ctx :
+  RoInv (r_read_only r) -> RoInv (ro_after_request r m ctx).
+Proof.
+  intros Hinv. unfold ro_after_request.
+  destruct (ro_find (ro_pending (r_read_only r)) ctx) eqn:E; [exact Hinv|].
+  destruct Hinv as (Hq & Hk & Hqk). apply ro_find_None in E.
+  assert (Hnq : ~ In ctx (ro_queue (r_read_only r))) by (intros A; apply Hqk in A; contradiction).
+  unfold RoInv, ro_keys. cbn [ro_queue ro_pending]. rewrite map_app. cbn [map fst].
+  split; [apply NoDup_snoc; assumption|]. split; [apply NoDup_snoc; assumption|].
+  intros c0. rewrite !in_app_iff. unfold ro_keys in Hqk. rewrite Hqk. reflexivity.
+Qed.
+
+(* C08.7 (contrast): with LeaseBased (or a single voter) the leader answers at once with its
+   commit index, without any quorum round: C08 is a statement about Safe only *)
+Theorem lease_based_no_quorum r m r' c :
+  m_type m = MsgReadIndex -> commit_to_current_term r = Ok true ->
+  (singleton_conf r = true \/ ro_option (r_read_only r) <> 0) ->
+  step_leader r m = Ok (r', c) ->
+  c = E_OK /\ r_read_only r' = r_read_only r /\
+  ((m_from m = INVALID_ID \/ m_from m = r_id r) /\
+   (exists e rest, m_entries m = e :: rest /\
+      r' = r <| r_read_states := r_read_states r ++ [mkRS (committed (r_log r)) (e_data e)] |>)
+   \/
+   (m_from m <> INVALID_ID /\ m_from m <> r_id r) /\
+   r' = r <| r_msgs := r_msgs r ++
+            [msg_default <| m_type := MsgReadIndexResp |> <| m_to := m_from m |>
+               <| m_index := committed (r_log r) |> <| m_entries := m_entries m |>
+               <| m_from := r_id r |> <| m_term := r_term r |>] |>).
+Proof.
+  intros Ht Hc Hmode H. rewrite step_leader_readindex_eq in H by exact Ht.
+  unfold step_leader_readindex in H. rewrite Hc in H. cbn [bind negb] in H.
+  assert (Hnow : readindex_answer_now r m = Ok (r', c)).
+  { destruct (singleton_conf r); [exact H|]. destruct Hmode as [Hm|Hm]; [discriminate|].
+    apply N.eqb_neq in Hm. rewrite Hm in H. exact H. }
+  clear H. unfold readindex_answer_now, handle_ready_read_index in Hnow.
+  destruct ((m_from m =? INVALID_ID) || (m_from m =? r_id r)) eqn:E.
+  - inv_bind Hnow. inv_bind Hx. inversion Hx; subst. clear Hx. cbn [bind] in Hnow.
+    inversion Hnow; subst.
+    split; [reflexivity|]. split; [reflexivity|]. left.
+    split; [apply orb_prop in E; destruct E as [E|E]; apply N.eqb_eq in E; auto|].
+    unfold first_entry_data in Hx0. destruct (m_entries m) as [|e rest]; [discriminate|].
+    inversion Hx0; subst. exists e, rest. split; reflexivity.
+  - cbn [bind] in Hnow. inv_bind Hnow. inversion Hnow; subst. clear Hnow.
+    rewrite send_plain in Hx by reflexivity. inversion Hx; subst.
+    split; [reflexivity|]. split; [reflexivity|]. right.
+    apply orb_false_elim in E. destruct E as [E1 E2]. apply N.eqb_neq in E1, E2.
+    split; [split; assumption|reflexivity].
+Qed.
